@@ -12,7 +12,8 @@ EXPLANATION = (
     "limit in the package is the strict form len(text) > LIMIT (definitions: len == 0 or len > LIMIT; names: len > 0 and len < 81), "
     "sits in a test whose true arm rejects, and all enforcement points confirmed by hand are still present; (R3) what is measured "
     "is text, not bytes; (R4) every hand-over of a state's output passes through the size test, and an error returned by "
-    "change_state is never discarded (C02.R5). Given len() semantics the boundary clause IS the operator and the constant.")
+    "change_state is never discarded (C02.R5). Given len() semantics the boundary clause IS the operator and the constant."
+    " (R7) every enforcement point of the data quota measures the JSON text: a point that has only the value serialises it compactly (separators=(',', ':'), ensure_ascii=False) instead of measuring a padded, escaped rendering; reported on the current tree as D75 (change_state, end_execution).")
 RULE_TEXT = "obligation = one constant definition / comparison site / hand-over function; non-trivial = distinct (rule, site)"
 
 LIMITS = {"MAX_DATA_LENGTH": 262144, "MAX_STATE_MACHINE_LENGTH": 1048576, "MAX_EXECUTION_HISTORY_LENGTH": 25000}
@@ -243,6 +244,8 @@ def r4(chk, ctx):
 
 
 def run(chk, ctx):
+    from . import round5
+    round5.quota_measures_the_json_text(chk, ctx)
     from . import c17
     c17.r1(chk, ctx)      # 'names iff 1..80 characters without the forbidden characters'
     r1(chk, ctx)
